@@ -558,7 +558,7 @@ func init() {
 		Explain: "Containment and accounting of SectionWriter as per-call preservation conditions (DESIGN.md 5/C18), decided on all paths: who may write each state field and who may call the underlying writer; at every underlying WriteAt the position is the cursor / base+off, strictly below limit, and the buffer is p or exactly p[0:limit-X]; ErrShortWrite exactly on truncation / out-of-range edges, underlying errors propagated; returned count = underlying count; cursor += count exactly once; Seek arithmetic per whence with exact reject-before-start guard; constructors. With the cursor invariant base <= off (constructor, Seek guard, Write adds a non-negative count; no other writer) these give containment for every call sequence by induction.",
 		NotDec:  []string{"behaviour of the underlying writer (its count is trusted to be 0 <= n <= len(buf))", "the induction over call sequences is the stated argument; its steps are decided"},
 		Trusted: []string{"go/ssa construction", "io.WriterAt contract: 0 <= n <= len(p)"},
-		Quick:   []Config{cfgDefault}, Thorough: []Config{cfgDefault, cfg386},
+		Quick:   []Config{cfgDefault, cfg386}, Thorough: []Config{cfgDefault, cfg386},
 		Run: runC18,
 	})
 }
